@@ -12,7 +12,7 @@ LEVEL = "exploration"
 RULE = ("first-fit, best-fit, FFD, BFD in every arrival order (random, ascending, descending, big-small alternation) on random, hardpack, repeat, threshold, zeros, equal classes "
         "(ints and dyadic fractions), the FFD non-monotonicity examples, and planted perfect packings up to 200 items; non-trivial = >= 3 bins; distinct on (algorithm, binsize, value sequence)")
 ASSUMPTIONS = ["OPT from O2 for n <= 12, from the planted construction otherwise; instances with neither only get the any-fit invariant"]
-FLOORS = {"quick": {"distinct_nontrivial": 20000, "with_opt": 5000}, "thorough": {"distinct_nontrivial": 200000, "with_opt": 50000}}
+FLOORS = {"quick": {"distinct_nontrivial": 20000, "with_opt": 5000}, "thorough": {"distinct_nontrivial": 100000, "with_opt": 25000}}
 ALGS = ("ff", "bf", "ffd", "bfd")
 NONMONO = [(60, [44, 24, 24, 22, 21, 17, 8, 8, 6, 6]), (61, [44, 24, 24, 22, 21, 17, 8, 8, 6, 6]),
            (75, [51, 27.5, 27.5, 27.5, 27.5, 25, 12, 12, 10, 10, 10, 10, 10, 10, 10, 10, 10]), (76, [51, 27.5, 27.5, 27.5, 27.5, 25, 12, 12, 10, 10, 10, 10, 10, 10, 10, 10, 10])]
